@@ -169,14 +169,24 @@ def asNamespace (prevCp : Option String) (raw : Val) : Except Err (String × KV 
 
 /-! ### one assignment -/
 
+/-- the scalar conversions of the adapter that matter here (the adapter itself is the subject of C02): a literal of the
+    declared type is taken as it is, an `int` given for a `float` parameter becomes a float; nothing else is accepted
+    (strings that look like numbers are kept out of the model's domain) -/
+def coerceScalar (t : String) : Val → Option Val
+  | .lit t' tok =>
+    if t' == t then some (.lit t' tok)
+    else if t == "float" && t' == "int" then some (.lit "float" (tok ++ ".0"))
+    else none
+  | _ => none
+
 /-- validation of one init arg against the parameter's type; `rec` adapts a class-typed value -/
 def adaptValueWith (rec : String → Option Val → Val → Except Err Val) (ty : PTy) (prev : Option Val) (v : Val) :
     Except Err Val :=
   match ty with
   | .scalar t =>
-    match v with
-    | .lit t' tok => if t' == t then .ok (.lit t' tok) else .error .illTyped
-    | _ => .error .illTyped
+    match coerceScalar t v with
+    | some y => .ok y
+    | none => .error .illTyped
   | .cls b => rec b prev v
   | .optCls b => if isNone v then .ok v else rec b prev v
 
@@ -262,7 +272,11 @@ def finalizeArgsWith (rec : Val → Except Err Val) (ia : KV) : List IParam → 
       match getKV p.name ia with
       | some x =>
         (match p.ty with
-         | .scalar _ => .ok x
+         | .scalar t =>
+           -- the final check adapts every stored value once more (a value kept across a class change is converted here)
+           (match coerceScalar t x with
+            | some y => .ok y
+            | none => .error .illTyped)
          | _ => if isNone x then .ok x else rec x)
       | none =>
         (match p.dflt with
